@@ -2,6 +2,7 @@ package enga
 
 import (
 	"fmt"
+	"github.com/git-lfs/git-lfs/v3/creds"
 	"os"
 	"path/filepath"
 	"strconv"
@@ -50,6 +51,9 @@ type QCfg struct {
 	PreFinal      map[int]int `json:"pre_final,omitempty"` // garbage already at the final path
 	RefName       string      `json:"ref_name,omitempty"`
 	OfferHeaders  bool        `json:"offer_extra_action_headers,omitempty"`
+	// ActionAuth: every action carries its own Authorization header, which
+	// the storage may refuse with 401 (C18)
+	ActionAuth bool `json:"actions_carry_authorization,omitempty"`
 }
 
 // Delivery is one Transfer received on a Watch() channel.
@@ -310,6 +314,14 @@ func RunQueue(rc *RunCtx, cfg QCfg) *QRun {
 	w.Net.DropAfter = cfg.DropAfter
 	w.Srv.ExpiresInS = cfg.ExpiresInS
 	w.Srv.OfferExtraHeaders = cfg.OfferHeaders
+	if cfg.ActionAuth {
+		n := 0
+		w.Srv.Storage401 = true
+		w.Srv.ActionAuth = func(rel, oid string) string {
+			n++
+			return fmt.Sprintf("RemoteAuth token-%d-%s", n, rel)
+		}
+	}
 	qr := &QRun{Cfg: cfg, W: w, Paths: map[string]string{}, Pre: map[string][]byte{}}
 	// objects
 	qr.Objs = make([]*Obj, len(cfg.Sizes))
@@ -335,6 +347,10 @@ func RunQueue(rc *RunCtx, cfg QCfg) *QRun {
 		qr.Objs[i] = o
 	}
 	cl := w.NewClient(0, filepath.Join(rc.Dir, "c0"), clientSettings(&cfg))
+	if cfg.ActionAuth {
+		// the user has credentials of their own for every host
+		cl.API.Credentials = staticCreds{}
+	}
 	qr.Client = cl
 	dirName := "download"
 	dir := tq.Download
@@ -516,3 +532,18 @@ func (qr *QRun) Sample(rc *RunCtx) map[string]interface{} {
 		"steps": qr.W.S.Step, "outcome": rc.Res.Class,
 	}
 }
+
+// staticCreds fills the same user credentials for any host.
+type staticCreds struct{}
+
+func (staticCreds) Fill(in creds.Creds) (creds.Creds, error) {
+	out := creds.Creds{}
+	for k, v := range in {
+		out[k] = v
+	}
+	out["username"] = []string{"alice"}
+	out["password"] = []string{"users-own-secret"}
+	return out, nil
+}
+func (staticCreds) Approve(creds.Creds) error { return nil }
+func (staticCreds) Reject(creds.Creds) error  { return nil }
